@@ -267,6 +267,9 @@ func (n *Nodis) LPopRPush(source, destination string) []byte {
 		})
 		return nil
 	})
+	if len(v) == 0 {
+		return nil
+	}
 	return v[0]
 }
 
@@ -294,6 +297,9 @@ func (n *Nodis) RPopLPush(source, destination string) []byte {
 		})
 		return nil
 	})
+	if len(v) == 0 {
+		return nil
+	}
 	return v[0]
 }
 
